@@ -31,7 +31,7 @@ func main() {
 			*tier = "quick"
 		}
 		seed, _ := strconv.Atoi(os.Getenv("VERIF_SEED"))
-		code := runCheck(CheckOpts{Prop: prop, Tier: *tier, Seed: seed, Only: *only, Update: *update, Timeout: *timeout, Quiet: *quiet, NoEvid: *only != ""})
+		code := runCheck(CheckOpts{Prop: prop, Tier: *tier, Seed: seed, Only: *only, Update: *update, Timeout: *timeout, Quiet: *quiet, NoEvid: *only != "" || os.Getenv("GOVC_NOEVIDENCE") != ""})
 		if code == 0 && *tier == "thorough" && *only == "" {
 			code = runSelftest(prop, 60*time.Second)
 		}
